@@ -190,9 +190,19 @@ def _common_gradient_parts(el, shape_opacity=1.0):
     if spread_method not in Extend.__members__:
         raise ValueError(f"Unknown spreadMethod {spread_method}")
 
+    # SVG clamps stop offsets to [0, 1] and raises each to at least the one before it
+    # https://www.w3.org/TR/SVG11/pservers.html#StopElementOffsetAttribute
+    stops = []
+    for stop_el in el:
+        stop = _color_stop(stop_el, shape_opacity)
+        offset = min(max(stop.stopOffset, 0.0), 1.0)
+        if stops:
+            offset = max(offset, stops[-1].stopOffset)
+        stops.append(dataclasses.replace(stop, stopOffset=offset))
+
     return {
         "extend": Extend.__members__[spread_method],
-        "stops": tuple(_color_stop(stop, shape_opacity) for stop in el),
+        "stops": tuple(stops),
     }
 
 
